@@ -33,7 +33,7 @@ func init() {
 		r.Rule = "SEQ: every sequence of write operations up to the stated depth over the stated alphabet is replayed on the real store (fresh names) and the complete latest-view observation (all page sizes, scoped/unscoped/unmerged lookups) is compared with the reference model; states are deduplicated by a canonical raw-key scan of the implementation; distinct = distinct canonical end states"
 		r.Assumptions = []string{"badger transactions are linearizable", "alphabet: 2 datasets, ids e1,e2(,e3 as ref target), content pool incl. equal-length pairs"}
 		ids2 := []string{"e1", "e2"}
-		wide := vWriteAlphabet(vDS, ids2, allPool(), poolIdx("v1", "v2", "dv1", "r2", "d", "v1pad"), [][2]int{{0, 1}, {2, 0}, {0, 2}, {3, 3}})
+		wide := vWriteAlphabet(vDS, ids2, allPool(), poolIdx("v1", "v2", "dv1", "r2", "d", "v1pad", "dv2", "psa", "pas"), [][2]int{{0, 1}, {2, 0}, {0, 2}, {3, 3}})
 		narrow := vWriteAlphabet(vDS, ids2, narrowPool(), poolIdx("v1", "dv1", "v1pad"), [][2]int{{0, 2}, {2, 5}})
 		params := storeParams("c01", vDS, vIDs)
 		if r.Quick() {
@@ -49,7 +49,7 @@ func init() {
 		r.Rule = "SEQ: every interleaving of write operations with token-carrying readers (two cursors, every limit, latest-only or not) up to the stated depth; after every history the full feed, every paged read (limits 0..3, latest-only or not), end-of-feed and beyond-the-end tokens are compared with the reference feed (one entry per non-identical write); reader cursors are part of the state"
 		r.Assumptions = []string{"badger transactions are linearizable", "change positions need not be contiguous; tokens are compared by the feed index they denote"}
 		ids2 := []string{"e1", "e2"}
-		writes := vWriteAlphabet([]string{"A"}, ids2, poolIdx("v1", "v2", "dv1", "r2"), poolIdx("v1", "v2", "dv1"), nil)
+		writes := vWriteAlphabet([]string{"A"}, ids2, poolIdx("v1", "v2", "dv1", "r2", "dv2"), poolIdx("v1", "v2", "dv1", "dv2"), nil)
 		writes = append(writes, VOp{K: "batch", DS: "A", Ents: []VEnt{{"e1", 0}, {"e2", 0}, {"e1", 1}}})
 		writes = append(writes, VOp{K: "batch", DS: "B", Ents: []VEnt{{"e1", 0}}})
 		var reads []VOp
@@ -72,7 +72,7 @@ func init() {
 		r.Rule = "SEQ: every sequence of reference-shaped writes up to the stated depth; after every history all 216 relationship queries (3 start ids x {p,q,*} x {out,in} x 4 scopes) x limits {unlimited,1,2 following continuations} plus multi-start queries are compared as sets with the graph implied by the model's latest versions"
 		r.Assumptions = []string{"badger transactions are linearizable", "result order and related-entity content are not compared here (C01)"}
 		ids2 := []string{"e1", "e2"}
-		refs := poolIdx("e", "r2", "r23", "pq2", "q3", "dr2", "d", "r1")
+		refs := poolIdx("e", "r2", "r23", "pq2", "q3", "dr2", "d", "r1", "r32", "psa", "pas")
 		alpha := vWriteAlphabet(vDS, ids2, refs, poolIdx("r2", "dr2", "e"), [][2]int{})
 		alpha = append(alpha, VOp{K: "txn", Parts: map[string][]VEnt{"A": {{"e1", refs[1]}}, "B": {{"e1", refs[5]}}}})
 		params := storeParams("c03", vDS, vIDs)
@@ -92,7 +92,7 @@ func init() {
 		r.Rule = "SEQ, differential: every write history up to the stated depth; after each operation the current-state answers (entity lookups per scope, relationship queries with limits 0 and 1) are recorded as the truth for the instants exactly at, 1ns before and 1ns after that commit; at the end of every history every recorded instant is re-evaluated as a point-in-time query (continuations pin the instant) and compared with its truth"
 		r.Assumptions = []string{"badger transactions are linearizable", "commit times are the implementation's real clock; only their order matters"}
 		ids2 := []string{"e1", "e2"}
-		alpha := vWriteAlphabet(vDS, ids2, poolIdx("v1", "v2", "dv1", "r2", "r23", "dr2"), poolIdx("v1", "dv1", "r2"), [][2]int{{0, 2}})
+		alpha := vWriteAlphabet(vDS, ids2, poolIdx("v1", "v2", "dv1", "r2", "r23", "dr2", "dv2", "r3"), poolIdx("v1", "dv1", "r2"), [][2]int{{0, 2}})
 		params := storeParams("c06", vDS, vIDs)
 		depth, budget := 2, 90*time.Second
 		if !r.Quick() {
